@@ -161,7 +161,7 @@ func replay(v core.Violation) (bool, string) {
 
 var scopeCons = []gen.Con{
 	{Name: "1", Arity: 0}, {Name: "2", Arity: 0}, {Name: "x", Arity: 0}, {Name: "y", Arity: 0}, {Name: "'a", Arity: 0}, {Name: "()", Arity: 0},
-	{Name: "LAM", Arity: 1}, {Name: "LAMZ", Arity: 1}, {Name: "DP", Arity: 1}, {Name: "F", Arity: 1}, {Name: "SETX", Arity: 1}, {Name: "SETY", Arity: 1},
+	{Name: "LAM", Arity: 1}, {Name: "LAMZ", Arity: 1}, {Name: "LETF", Arity: 1}, {Name: "DP", Arity: 1}, {Name: "F", Arity: 1}, {Name: "SETX", Arity: 1}, {Name: "SETY", Arity: 1},
 	{Name: "DT", Arity: 1}, {Name: "TF", Arity: 1}, {Name: "AS", Arity: 1}, {Name: "NOT", Arity: 1}, {Name: "T2", Arity: 1},
 	{Name: "LET", Arity: 2}, {Name: "LET2", Arity: 2}, {Name: "FC", Arity: 2}, {Name: "PG", Arity: 2}, {Name: "AND", Arity: 2}, {Name: "OR", Arity: 2},
 	{Name: "FLET", Arity: 2}, {Name: "LABELS", Arity: 2}, {Name: "PLUS", Arity: 2}, {Name: "LIST", Arity: 2}, {Name: "COND", Arity: 2},
@@ -178,6 +178,9 @@ func renderScope(t *gen.Tree) string {
 	case "LAMZ":
 		// a parameter that shadows nothing: the body's x and y are the creator's
 		return "(lambda (z) " + k(0) + ")"
+	case "LETF":
+		// a closure created by a let init and called after the binding exists: its x is the ENCLOSING x
+		return "(let ([x (lambda (z) " + k(0) + ")]) (funcall x 1))"
 	case "DP":
 		return "(debug-print " + k(0) + ")"
 	case "F":
@@ -246,7 +249,7 @@ func tableScope(r *core.Run, maxSize int) {
 }
 
 func run(r *core.Run) {
-	r.Rule("T-scope: every term of the scope grammar (6 leaves, 11 unary, 11 binary, 2 ternary constructors over let, let*, lambda, funcall, set!, set, progn, if, cond, and, or, flet, labels, user-function call, +, list, debug-print, dotimes, thread-first, assert, not, a closure called twice) up to the node bound, in 3 contexts; " +
+	r.Rule("T-scope: every term of the scope grammar (6 leaves, 12 unary, 11 binary, 2 ternary constructors over let, let*, lambda, funcall, set!, set, progn, if, cond, and, or, flet, labels, user-function call, +, list, debug-print, dotimes, thread-first, assert, not, a closure called twice) up to the node bound, in 3 contexts; " +
 		"T-rec: closures created in every iteration of self / mutual / labels / funcall / apply (tail and non-tail) recursion, 5 capture shapes x 3 uses x 0..3 iterations; T-bind: every formals list x every argument list (see bounds); T-app: every covered builtin x every argument tuple over the value alphabet. " +
 		"Each program is rendered to source text and given to both the definitional interpreter (verif/mc/ri) and the real interpreter; value rendering, error condition and stderr transcript must agree. Non-trivial = the reference defines an outcome; distinct by source text")
 	r.Assume("function values are rendered as #<fun> on both sides")
